@@ -146,19 +146,56 @@ fn exec(problem: &P, state: &mut State<'static, P>, a: &Value, k: usize) -> Valu
             comp(problem, state, PopulationEvaluator::new())
         }
         "evaluate_missing" => {
-            // a configuration that asks for an evaluator identifier nobody registered, run on a copy
+            // a configuration that asks for an evaluator identifier nobody registered, run on a copy;
+            // placement s: 0 top level, 1 loop body, 2 if body, 3 else body (taken), 4 else body (not taken)
+            use mahf::conditions::{LessThanN, RandomChance};
             let counter = Arc::new(AtomicU32::new(0));
-            let config: Configuration<P> =
-                Configuration::builder().do_(Box::new(CountLeaf { n: counter.clone() })).evaluate_with::<A>().do_(Box::new(CountLeaf { n: counter.clone() })).build();
+            let leaf = || -> Box<dyn Component<P>> { Box::new(CountLeaf { n: counter.clone() }) };
+            let b = Configuration::builder().do_(leaf());
+            let b = match s {
+                0 => b.evaluate_with::<A>(),
+                1 => b.while_(LessThanN::iterations(1), |b| b.do_(leaf()).evaluate_with::<A>()),
+                2 => b.if_(RandomChance::new(1.0), |b| b.do_(leaf()).evaluate_with::<A>()),
+                3 => b.if_else_(RandomChance::new(0.0), |b| b.do_(leaf()), |b| b.do_(leaf()).evaluate_with::<A>()),
+                _ => b.if_else_(RandomChance::new(1.0), |b| b.do_(leaf()), |b| b.do_(leaf()).evaluate_with::<A>()),
+            };
+            let config: Configuration<P> = b.do_(leaf()).build();
             let mut st2: State<P> = State::new();
             let mut pops = Populations::<P>::new();
             pops.push(state.populations().current().to_vec());
             st2.insert(pops);
+            st2.insert(mahf::Random::new(1));
             st2.insert_evaluator(Sequential::<P>::new());
             match caught(|| config.run(problem, &mut st2)) {
                 Ok(Ok(())) => r("ok", counter.load(Ordering::SeqCst) as i64),
                 Ok(Err(_)) => r("err", counter.load(Ordering::SeqCst) as i64),
                 Err(_) => r("panic", counter.load(Ordering::SeqCst) as i64),
+            }
+        }
+        "evaluate_nested" => {
+            // scope^s { evaluate }; evaluate   — the evaluator lives in the caller's state, s scopes further out
+            fn nest(b: mahf::configuration::ConfigurationBuilder<P>, depth: u32) -> mahf::configuration::ConfigurationBuilder<P> {
+                if depth == 0 {
+                    b.evaluate()
+                } else {
+                    b.scope_(|b| nest(b, depth - 1))
+                }
+            }
+            let config: Configuration<P> = nest(Configuration::builder(), s).evaluate().build();
+            let counting = TagProblem::with_table(problem.table.clone());
+            let mut st2: State<P> = State::new();
+            let mut pops = Populations::<P>::new();
+            pops.push(state.populations().current().to_vec());
+            st2.insert(pops);
+            st2.insert_evaluator(Sequential::<P>::new());
+            match caught(|| config.run(&counting, &mut st2)) {
+                Ok(Ok(())) => {
+                    let all = st2.populations().current().iter().all(|i| i.is_evaluated());
+                    let still_there = st2.contains::<mahf::state::common::Evaluator<P>>();
+                    r(if all && still_there { "ok" } else { "ok_but_broken" }, counting.calls() as i64)
+                }
+                Ok(Err(_)) => r("err", counting.calls() as i64),
+                Err(_) => r("panic", counting.calls() as i64),
             }
         }
         "update_best" => comp(problem, state, BestIndividualUpdate::new()),
@@ -257,7 +294,8 @@ pub fn main(args: &Args) -> usize {
                             54..=58 if n > 0 => act("evaluate_with", i, 0),
                             59..=62 if n > 0 => act("set_objective", i, 0),
                             63..=74 => act("evaluate", 0, rng.gen_range(0..2)),
-                            75..=76 => act("evaluate_missing", 0, 0),
+                            75 => act("evaluate_missing", 0, rng.gen_range(0..5)),
+                            76 => act("evaluate_nested", 0, rng.gen_range(1..4)),
                             77..=86 if all_eval => act("update_best", 0, 0),
                             87..=94 if all_eval => act("archive_update", 0, 0),
                             95..=99 if n + narch < 14 => act("archive_into_population", 0, 0),
